@@ -648,14 +648,23 @@ func poolCount(p *config.Pool) (int64, int64, int64) {
 				}
 			}
 		}
-		total += sz
+		total = saturatingAdd(total, sz)
 		if cidr.IP.To4() == nil {
-			ipv6 += sz
+			ipv6 = saturatingAdd(ipv6, sz)
 		} else {
-			ipv4 += sz
+			ipv4 = saturatingAdd(ipv4, sz)
 		}
 	}
 	return total, ipv4, ipv6
+}
+
+// saturatingAdd adds two non-negative counts, capping the sum at math.MaxInt64
+// (the value used for enormous ipv6 ranges) instead of overflowing.
+func saturatingAdd(a, b int64) int64 {
+	if a > math.MaxInt64-b {
+		return math.MaxInt64
+	}
+	return a + b
 }
 
 // poolFor returns the pool that owns the requested IPs, or "" if none.
